@@ -205,8 +205,9 @@ def _interp_cases(draw, tier="quick"):
 
 def _clause(name):
     heavy = name in ("ConstraintKMeans", "ApproximateNMFPredictor", "DecisionTreeLogisticRegression", "ClassifierAfterKMeans", "PiecewiseClassifier", "PiecewiseRegressor")
-    return Clause("refit:" + name, check_refit, strategy=lambda tier, n=name: _refit_cases(n, tier), quick=60 if heavy else 100,
-                  thorough=800 if heavy else 1500, quick_shards=1, thorough_shards=2, doc="fit histories on %s: instance == clone-fit under one seed" % name)
+    threaded = name in ("IntervalRegressor",)          # results must not depend on the thread schedule: more histories, more schedules
+    return Clause("refit:" + name, check_refit, strategy=lambda tier, n=name: _refit_cases(n, tier), quick=320 if threaded else (60 if heavy else 100),
+                  thorough=4000 if threaded else (800 if heavy else 1500), quick_shards=8 if threaded else 1, thorough_shards=8 if threaded else 2, doc="fit histories on %s: instance == clone-fit under one seed" % name)
 
 
 CLAUSES = [_clause(n) for n in sorted(R.ENTRIES)] + [
